@@ -161,27 +161,18 @@ func c09HashForm(c *Ctx) {
 	f := c.fn("cue/literal", "(*Form).singleLineHashCount")
 	g := c.graph(f)
 	info := f.Info()
-	// condition nodes that look at a doubled quote at the start of s
-	guards := map[int]bool{}
-	for _, n := range g.Nodes {
-		for _, e := range n.Succs {
-			if e.Cond == nil {
-				continue
-			}
-			ast.Inspect(e.Cond, func(x ast.Node) bool {
-				call, ok := x.(*ast.CallExpr)
-				if !ok || calleeName(info, call) != "strings.HasPrefix" || len(call.Args) != 2 {
-					return true
-				}
-				// the prefix mentions f.quote twice (or the triple quote minus one)
-				if strings.Count(exprString(call.Args[1]), "quote") >= 2 || strings.Contains(exprString(call.Args[1]), "tripleQuote[") {
-					guards[n.ID] = true
-				}
-				return true
-			})
+	// guard atom: strings.HasPrefix(s, quote+quote); true = must not use the hash form
+	atom := func(e ast.Expr) (bool, bool) {
+		call, ok := e.(*ast.CallExpr)
+		if !ok || calleeName(info, call) != "strings.HasPrefix" || len(call.Args) != 2 {
+			return false, false
 		}
+		if strings.Count(exprString(call.Args[1]), "quote") >= 2 || strings.Contains(exprString(call.Args[1]), "tripleQuote[") {
+			return true, true
+		}
+		return false, false
 	}
-	ok := len(guards) > 0
+	positive := map[int]bool{}
 	for _, r := range g.returns() {
 		rs := g.Nodes[r].N.(*ast.ReturnStmt)
 		if len(rs.Results) == 1 {
@@ -189,10 +180,10 @@ func c09HashForm(c *Ctx) {
 				continue // the escaped form
 			}
 		}
-		if !g.mustPassNode(r, guards) {
-			ok = false
-		}
+		positive[r] = true
 	}
+	res := g.gate(atom, positive, nil, g.Entry)
+	ok := len(positive) > 0 && res.found && !res.leak && !res.bypass
 	c.check("quote.hash-form-never-opens-multiline", f.Name, f.Decl.Pos(), ok,
 		"singleLineHashCount must fall back to the escaped form (return 0) for a string that starts with two quote characters: `#\"` followed by `\"\"` is the opening of a multi-line string for the scanner, so `#\"\"\"\"#` (the string of two quotes) does not read back — every path returning a positive hash count must pass a strings.HasPrefix(s, quote+quote) test")
 }
